@@ -194,12 +194,14 @@ func (q *Queue) Add(elem *queue.Elem) (err error) {
 			}
 			// non-inflight message
 			if i >= q.current {
-				if i == q.current {
+				pub := e.MessageWithID.(*queue.Publish)
+				// the oldest message that is queued, not in flight (before the in-flight
+				// entries have been replayed after a reconnect the cursor still points at them)
+				if pub.ID() == 0 && frontElem == nil {
 					frontBytes = b
 					frontElem = e
 				}
 				// drop qos0 message in the queue
-				pub := e.MessageWithID.(*queue.Publish)
 				// drop expired non-inflight message
 				if pub.ID() == 0 && queue.ElemExpiry(now, e) {
 					dropBytes = b
